@@ -347,12 +347,21 @@ class JSObject:
         return None
 
     def define_getter(self, key: str, getter: Any) -> None:
-        """Define a getter for a property."""
+        """Define a getter: the key becomes an accessor property (a data value
+        it had is dropped - a key is either data or accessor, never both)."""
+        self._properties.pop(key, None)
         self._getters[key] = getter
 
     def define_setter(self, key: str, setter: Any) -> None:
-        """Define a setter for a property."""
+        """Define a setter: the key becomes an accessor property."""
+        self._properties.pop(key, None)
         self._setters[key] = setter
+
+    def define_value(self, key: str, value: JSValue) -> None:
+        """Define a data property, replacing an accessor of the same name."""
+        self._getters.pop(key, None)
+        self._setters.pop(key, None)
+        self._properties[key] = value
 
     def set(self, key: str, value: JSValue) -> None:
         """Set a property value."""
@@ -363,11 +372,16 @@ class JSObject:
         return key in self._properties
 
     def delete(self, key: str) -> bool:
-        """Delete a property."""
+        """Delete a property (data or accessor)."""
+        found = False
         if key in self._properties:
             del self._properties[key]
-            return True
-        return False
+            found = True
+        if self._getters.pop(key, None) is not None:
+            found = True
+        if self._setters.pop(key, None) is not None:
+            found = True
+        return found
 
     def keys(self) -> List[str]:
         """Get own enumerable property keys."""
